@@ -344,10 +344,7 @@ func init() {
 	}
 	intrinsics[V+"Param"] = func(vm *VM, fr *frame, args []Value, cc *ssa.CallCommon) Value {
 		name, _ := vm.goString(args[0].(Str))
-		v, ok := vm.cfg.Params[name]
-		if !ok {
-			panic(fmt.Sprintf("harness asks for undefined parameter %q", name))
-		}
+		v := vm.cfg.Params[name] // parameters not given are 0
 		return vm.ts.BV(64, uint64(int64(v)))
 	}
 	// Choice(n): a concrete value in [0,n) chosen by forking
